@@ -26,6 +26,7 @@ func main() {
 	noEvidence := flag.Bool("no-evidence", false, "do not write evidence files (used when analysing scratch copies)")
 	verbose := flag.Bool("v", false, "print every obligation")
 	manifest := flag.Bool("manifest", false, "print MANIFEST.json")
+	dump := flag.String("dump", "", "debug: dump an engine's tables (locks)")
 	flag.Parse()
 	if *manifest {
 		b, err := rules.ManifestJSON()
@@ -34,6 +35,15 @@ func main() {
 			os.Exit(2)
 		}
 		fmt.Println(string(b))
+		return
+	}
+	if *dump != "" {
+		p, err := core.Load(core.LoadConfig{Dir: *repo})
+		if err != nil {
+			fmt.Println(err)
+			os.Exit(2)
+		}
+		rules.Dump(core.NewCtx(p), *dump)
 		return
 	}
 	if *list {
